@@ -43,9 +43,15 @@ static inline void record(int i, const HydroVariables *Lp, const HydroVariables 
   else { long al[3] = {ax, ay, az}, bl[3] = {bx, by, bz};
     for (int k = 0; k < 3; ++k) { if (k == i) { if (!(al[k] == nc[k] - 1 && bl[k] == 0)) ++bad; } else if (al[k] != bl[k]) ++bad; } }
 }
-__attribute__((noinline)) void stub_flux(const Hydro *, unsigned char i, HydroVariables *L, HydroVariables *R, double dx, double A, double dt) { record(i, L, R); }
-__attribute__((noinline)) void stub_grad(const Hydro *, int i, HydroVariables *L, HydroVariables *R, double dxinv, double *WL, double *WR) { record(i, L, R); }
 HydroVariables cells0[27], cells1[27]; double lim0[270], lim1[270];
+// geometry handed to the kernels: per axis the harness gives cell size 2+k, inverse cell size 10+k, face area 20+k (exactly representable,
+// pairwise different), so a factor taken from the wrong axis is visible; the limiter windows must be those of the two cells of the face
+__attribute__((noinline)) void stub_flux(const Hydro *, unsigned char i, HydroVariables *L, HydroVariables *R, double dx, double A, double dt) {
+  record(i, L, R); if (!(dx == 2. + i && A == 20. + i && dt == 1.)) ++bad; }
+__attribute__((noinline)) void stub_grad(const Hydro *, int i, HydroVariables *L, HydroVariables *R, double dxinv, double *WL, double *WR) {
+  record(i, L, R); if (!(dxinv == 10. + i)) ++bad;
+  const double *lL = (baseL == cells0) ? lim0 : lim1, *lR = (baseR == cells0) ? lim0 : lim1;
+  if (WL != lL + 10 * (L - baseL) || WR != lR + 10 * (R - baseR)) ++bad; }
 static inline void setup_grids(void) {
 #ifdef NCX
   nc[0] = NCX; nc[1] = NCY; nc[2] = NCZ;                                   // block shape fixed per run (all listed shapes are run); probe face symbolic
@@ -55,7 +61,7 @@ static inline void setup_grids(void) {
   nc[3] = nc[1] * nc[2];
   for (int g = 0; g < 2; ++g) { HydroDensitySubGrid &s = g_ug2.g[g]; for (int k = 0; k < 4; ++k) s._number_of_cells[k] = nc[k];
     s._hydro_variables = g ? cells1 : cells0; s._primitive_variable_limiters = g ? lim1 : lim0;
-    for (int k = 0; k < 3; ++k) { s._cell_size[k] = 1.; s._inv_cell_size[k] = 1.; s._cell_areas[k] = 1.; } }
+    for (int k = 0; k < 3; ++k) { s._cell_size[k] = 2. + k; s._inv_cell_size[k] = 10. + k; s._cell_areas[k] = 20. + k; } }
   hits = calls = bad = 0;
 }
 __attribute__((noinline)) void h_f2_inner(void) {
